@@ -30,11 +30,12 @@ Inductive tcase :=
            (tab : numtable) (c : caller) (ua : uarg) (text : str) (exp : obs)
   (* cls(number, unit) *)
   | TNumber (dm : mode) (c : caller) (n : numarg) (ua : uarg) (exp : obs)
-  (* q = a*u as stored; [shown] = str(q.amount); expected: str(q), and
-     cls(str(q), unit) *)
+  (* q = a*u as stored; [shown] = str(q.amount), which is also the number
+     part of str(q) whose parse outcome is [numres]; expected: str(q) =
+     shown ++ exp_suffix, and cls(str(q), unit) *)
   | TRound (dm : mode) (convs : list (N * list table)) (d : directory)
-           (tab : numtable) (c : caller) (ua : uarg)
-           (shown : str) (a : Q) (u : unit) (exp_text : str) (exp : obs)
+           (numres : res Q) (c : caller) (ua : uarg)
+           (shown : str) (a : Q) (u : unit) (exp_suffix : str) (exp : obs)
   (* format(q, spec) *)
   | TFormat (d : directory) (shown : str) (spec : list piece) (a : Q) (u : unit)
             (exp_text : str)
@@ -59,9 +60,10 @@ Definition t_model (c : tcase) : tobs :=
   | TParse dm cv d tab cl ua text _ =>
       TO (obs_res_qty (parse_qty (table_parse tab) d (convs_of cv) dm cl ua text))
   | TNumber dm cl n ua _ => TO (obs_res_qty (mk_from_number dm cl n ua))
-  | TRound dm cv d tab cl ua shown a u _ _ =>
+  | TRound dm cv d numres cl ua shown a u _ _ =>
       let text := qty_str (fun _ => shown) d (mkQty a u) in
-      TBoth text (obs_res_qty (parse_qty (table_parse tab) d (convs_of cv) dm cl ua text))
+      TBoth text (obs_res_qty (parse_qty (table_parse [(shown, numres)]) d
+                                         (convs_of cv) dm cl ua text))
   | TFormat d shown spec a u _ => TText (qty_format (fun _ => shown) d spec (mkQty a u))
   | TSpaces bound _ => TList (spaces_below bound)
   end.
@@ -70,7 +72,7 @@ Definition t_expected (c : tcase) : tobs :=
   match c with
   | TParse _ _ _ _ _ _ _ e => TO e
   | TNumber _ _ _ _ e => TO e
-  | TRound _ _ _ _ _ _ _ _ _ t e => TBoth t e
+  | TRound _ _ _ _ _ _ shown _ _ t e => TBoth (shown ++ t) e
   | TFormat _ _ _ _ _ t => TText t
   | TSpaces _ l => TList l
   end.
